@@ -61,6 +61,11 @@ func ruleFuncValuesOfCorrectType(observers *Events, addError AddErrFunc, disable
 				if _, err := strconv.ParseInt(value.Raw, 10, 32); err != nil {
 					unexpectedTypeMessage(addError, value)
 				}
+			} else if value.Definition.OneOf("Float") {
+				// an integer literal given for a Float is a finite double too
+				if f, err := strconv.ParseFloat(value.Raw, 64); err != nil || math.IsInf(f, 0) {
+					unexpectedTypeMessage(addError, value)
+				}
 			}
 
 		case ast.FloatValue:
